@@ -658,10 +658,12 @@ def _is_none_test(t):
 
 
 def _is_nprandom_test(ctx, f, t):
-    if isinstance(t, ast.Compare) and len(t.ops) == 1 and isinstance(t.ops[0], (ast.Is, ast.Eq)) \
-            and isinstance(t.left, ast.Name) and t.left.id == 'seed':
-        r = ctx.prog.resolve_expr(f, t.comparators[0])
-        return r[0] == 'ext' and r[1] in ('numpy.random', 'numpy.random.mtrand._rand')
+    if isinstance(t, ast.Compare) and len(t.ops) == 1 and isinstance(t.ops[0], (ast.Is, ast.Eq)):
+        for a, b in ((t.left, t.comparators[0]), (t.comparators[0], t.left)):       # `is` / `==` are symmetric
+            if isinstance(a, ast.Name) and a.id == 'seed':
+                r = ctx.prog.resolve_expr(f, b)
+                if r[0] == 'ext' and r[1] in ('numpy.random', 'numpy.random.mtrand._rand'):
+                    return True
     return False
 
 
